@@ -37,11 +37,11 @@ contract(
         "implies(f >= 0, result >= f - 0.5 and (result - f < 0.5 or result - f == 0.5))",
         "implies(abs(result - f) == 0.5, abs(result) > abs(f))",
     ],
-    always_inline=True,
+    always_inline=True, timeout_ms=150000,   # bit-precise FloatingPoint obligations: 20-45 s each on this machine
 )
 
 contract(
-    "ethosu.vela.scaling:quantise_scale", props=["C09"], variants=FLOAT_VARIANTS,
+    "ethosu.vela.scaling:quantise_scale", props=["C09"], variants=FLOAT_VARIANTS, timeout_ms=150000,
     requires=["math.isfinite(scale)", "scale > 0"],
     ensures=[
         # in range: exact TFLite multiplier, shift = 31 - exponent
